@@ -147,7 +147,8 @@ def pde_check(pid, sols, classes, tier, seed, quick=(120, 8), thorough=(4000, 16
     agg.add_shards(run_shards(pde_shards(exe, sols, seed, cases, points, classes)))
     floors = [("every solution in scope contributed samples", agg.ndistinct("solutions") == len(sols)),
               ("at least 100 comparisons per solution", agg.count("comparisons") >= 100 * len(sols)),
-              ("at least half of the parameter vectors non-trivial", agg.count("parameter_vectors_all_distinct_nonzero") * 2 >= agg.count("parameter_vectors")),
+              ("at least half of the freshly drawn parameter vectors non-trivial", agg.count("parameter_vectors_all_distinct_nonzero") * 2 >= agg.count("fresh_parameter_vectors")),
+              ("incremental, default and partial-default cases all exercised", min(agg.count("incremental_cases(1-3 parameters changed)"), agg.count("default_parameter_cases(masa_init_param)"), agg.count("partial_default_cases")) >= len(sols)),
               ("fewer than 1% of the comparisons skipped because the reference is not finite", agg.count("skipped_reference_not_finite") * 100 <= agg.count("comparisons"))]
     for d, f in floors_extra:
         floors.append((d, f(agg)))
